@@ -6,7 +6,7 @@ From FH Require Import Model.Base Gen.GenC18 Model.ClientPool Spec.ClientPoolSpe
 Open Scope Z_scope.
 
 (* ConnsCount = idle + lent + in hand-over (delivered to a wantConn, or on the way to ReleaseConn / CloseConn)
-   + dials in flight (+ failed dialConnFor about to call decConnsCount) *)
+   + inside Close() + dials in flight (+ failed dialConnFor about to call decConnsCount) *)
 Theorem C18_exact_accounting : forall cf s, reach cf s -> exact_accounting s.
 Proof. exact exact_accounting_reach. Qed.
 Print Assumptions C18_exact_accounting.
@@ -15,22 +15,13 @@ Theorem C18_bound : forall cf s, reach cf s -> 0 <= cnt s <= eff_max cf.
 Proof. exact count_bound_reach. Qed.
 Print Assumptions C18_bound.
 
-(* connections open or being dialled, except those whose CloseConn has released the slot but not finished Close() *)
-Theorem C18_open_bound_excl_closing : forall cf s, reach cf s ->
-  open_or_dialling s - Z.of_nat (length (closing s)) <= eff_max cf.
-Proof. exact open_bound_excl_closing. Qed.
-Print Assumptions C18_open_bound_excl_closing.
-
-Theorem C18_open_bound_when_no_close_in_progress : forall cf s, reach cf s -> closing s = [] -> open_bound cf s.
-Proof. exact open_bound_no_closing. Qed.
-Print Assumptions C18_open_bound_when_no_close_in_progress.
-
-(* FINDING closeconn-slot-freed-before-close: the strict statement "never more than MaxConns connections open or
-   being dialled" is false of the code: CloseConn calls decConnsCount before cc.c.Close(), so a new connection can
-   be dialled while the old one is still open (MaxConns = 1: Acquire, DialOk, CloseConn up to decConnsCount, Acquire, DialOk). *)
-Theorem C18_open_bound_refuted : exists cf ls s, run cf init ls = Some s /\ reach cf s /\ ~ open_bound cf s.
-Proof. exact open_bound_refuted. Qed.
-Print Assumptions C18_open_bound_refuted.
+(* the strict reading of the statement: connections open (Close() not finished) or being dialled never exceed
+   MaxConns.  (Before the fix "CloseConn frees the MaxConns slot only after the connection is closed" this was
+   refuted by: MaxConns = 1, Acquire, DialOk, CloseConn up to decConnsCount, Acquire, DialOk.  That trace is kept in
+   the harness corpus.) *)
+Theorem C18_open_bound : forall cf s, reach cf s -> open_bound cf s.
+Proof. exact open_bound_reach. Qed.
+Print Assumptions C18_open_bound.
 
 (* a connection is in at most one of: idle list, one requester, one hand-over, one delivered wantConn, being closed *)
 Theorem C18_exclusive_lending : forall cf s, reach cf s -> exclusive s.
@@ -73,11 +64,18 @@ Theorem C18_waiter_outcome_no_leak : forall cf s c, In c (rel s) \/ In c (lent s
 Proof. exact release_enabled. Qed.
 Print Assumptions C18_waiter_outcome_no_leak.
 
+(* part 5: the slot hand-off never loses a waiter: a wantConn that is still waiting is in the wait queue or a
+   dialConnFor goroutine is dialling for it *)
+Theorem C18_waiter_outcome_not_lost : forall cf s, reach cf s ->
+  forall w, waitingb (wants s) w = true -> In w (waitq s) \/ In (DFor w) (dials s).
+Proof. exact no_lost_waiter. Qed.
+Print Assumptions C18_waiter_outcome_not_lost.
+
 Theorem C18_quiescent_zero : forall cf s, reach cf s -> quiescent s -> cnt s = 0.
 Proof. exact quiescent_zero. Qed.
 Print Assumptions C18_quiescent_zero.
 
-(* non-vacuity: a hand-over to a waiter, and a slot transfer through dialConnFor *)
+(* non-vacuity: a hand-over to a waiter, a slot transfer through dialConnFor, and the old witness of the open bound *)
 Example C18_ex_handover :
   let cf := {| maxc := 1; waiton := true; fifo := false |} in
   match run cf init [LAcquire 5 false; LDialOk 0; LAcquire 5 false; LEnqueue 0; LRelease 0; LTake 0] with
@@ -87,8 +85,16 @@ Example C18_ex_handover :
 Proof. vm_compute. repeat split; reflexivity. Qed.
 Example C18_ex_transfer :
   let cf := {| maxc := 1; waiton := true; fifo := false |} in
-  match run cf init [LAcquire 5 false; LDialOk 0; LAcquire 5 false; LEnqueue 0; LClose 0; LTick; LTick; LTick; LTick; LTick; LTimeout 0; LDialOk 0; LRelease 1] with
-  | Some s => cnt s = 1 /\ idle s = [1%nat] /\ closing s = [0%nat] /\ wst (getw (wants s) 0) = WRet RNoFree
+  match run cf init [LAcquire 5 false; LDialOk 0; LAcquire 5 false; LEnqueue 0; LClose 0; LCloseFin 0;
+                     LTick; LTick; LTick; LTick; LTick; LTimeout 0; LDialOk 0; LRelease 1] with
+  | Some s => cnt s = 1 /\ idle s = [1%nat] /\ closing s = [] /\ wst (getw (wants s) 0) = WRet RNoFree
+  | None => False
+  end.
+Proof. vm_compute. repeat split; reflexivity. Qed.
+Example C18_ex_no_dial_while_closing :
+  let cf := {| maxc := 1; waiton := false; fifo := false |} in
+  match run cf init [LAcquire 1 false; LDialOk 0; LClose 0; LAcquire 1 false] with
+  | Some s => cnt s = 1 /\ closing s = [0%nat] /\ dials s = [] /\ acquire_out cf s = ANoFree
   | None => False
   end.
 Proof. vm_compute. repeat split; reflexivity. Qed.
